@@ -224,6 +224,53 @@ def infra(msg):
     sys.exit(2)
 
 
+def run_impl_robust(ctx, binpath, dcs):
+    """ctx.run_impl with re-runs: a driver shard that was killed from outside (out-of-memory killer, timeout) is re-run
+    completely; when the driver itself crashed (abort, segfault) only the first unanswered case of the shard is the
+    culprit (reported as behaviour), the cases after it are re-run"""
+    KILL = (-9, 137, -15, 143, 124)
+    res = ctx.run_impl(binpath, dcs)
+    confirmed = set()
+    for _ in range(4):
+        died = [i for i, r in enumerate(res) if isinstance(r, dict) and r.get("driver_died") and i not in confirmed]
+        if not died:
+            break
+        rerun = []
+        for i in died:
+            first_of_group = (i - 1) not in died
+            if first_of_group and res[i].get("rc") not in KILL:
+                confirmed.add(i)
+            else:
+                rerun.append(i)
+        if not rerun:
+            break
+        again = ctx.run_impl(binpath, [dcs[i] for i in rerun])
+        for i, r in zip(rerun, again):
+            res[i] = r
+    if any(isinstance(r, dict) and r.get("driver_died") and r.get("rc") in KILL for r in res):
+        infra("the driver process was killed from outside or timed out repeatedly (machine overloaded?)")
+    return res
+
+
+def run_model_robust(ctx, sub, reqs, exprs):
+    """ctx.run_model, re-running (twice at most) the expressions whose coqc shard was killed (out-of-memory killer on a
+    loaded machine) or timed out; if that keeps happening it is an infrastructure error, never a verdict"""
+    def killed(r):
+        return (isinstance(r, tuple) and len(r) == 2 and r[0] == "ERROR" and
+                any(k in str(r[1]) for k in ("rc=-9", "rc=137", "rc=-15", "rc=143", "rc=124", "[timeout", "Killed", "Out of memory")))
+    res = ctx.run_model(sub, reqs, exprs, preamble="Open Scope N_scope.")
+    for _ in range(2):
+        bad = [i for i, r in enumerate(res) if killed(r)]
+        if not bad:
+            break
+        again = ctx.run_model(sub, reqs, [exprs[i] for i in bad], preamble="Open Scope N_scope.")
+        for i, r in zip(bad, again):
+            res[i] = r
+    if any(killed(r) for r in res):
+        infra("the coqc process evaluating the model was killed or timed out repeatedly (machine overloaded?)")
+    return res
+
+
 def evaluate(ctx, binpath, cases, stream, nseeds):
     cases = [_cn(c) for c in cases]
     dcs, idmaps = [], []
@@ -232,7 +279,7 @@ def evaluate(ctx, binpath, cases, stream, nseeds):
         dc, idmap = driver_case(c, seeds)
         dcs.append(dc)
         idmaps.append(idmap)
-    impl = ctx.run_impl(binpath, dcs)
+    impl = run_impl_robust(ctx, binpath, dcs)
     exprs, contents_all = [], []
     for c, im, idmap in zip(cases, impl, idmaps):
         if not im or "contents" not in im:
@@ -242,8 +289,7 @@ def evaluate(ctx, binpath, cases, stream, nseeds):
         contents = [[idmap[i] for i in ids] for _, ids in im["contents"]]
         contents_all.append(contents)
         exprs.append(coq_case(c, contents, make_sched(ctx.rng, len(contents))))
-    model = ctx.run_model("Rsp10", ["KV.Rsp10.Model", "KV.Rsp10.Eval", "KV.Rsp10.Spec", "KV.Rsp10.Run"], exprs,
-                          preamble="Open Scope N_scope.")
+    model = run_model_robust(ctx, "Rsp10", ["KV.Rsp10.Model", "KV.Rsp10.Eval", "KV.Rsp10.Spec", "KV.Rsp10.Run"], exprs)
     st = {"cases": len(cases), "firings": 0, "empty_emissions": 0, "mt_runs": 0, "evictions": 0, "rederived_raw": 0,
           "impl_model_mismatches": 0, "spec_violations": 0}
     for c, im, mo, contents in zip(cases, impl, model, contents_all):
